@@ -389,16 +389,18 @@ type tval struct {
 }
 
 type tinterp struct {
-	em     *Emitter
-	info   *types.Info
-	t      *Template
-	vars   map[types.Object]*tval
-	callV  map[*ast.CallExpr]*tval
-	frames []*ast.CallExpr
-	binds  []map[types.Object]ast.Expr // parameter -> argument expr of inlined calls
-	caps   int
-	self   *types.Func
-	tables map[types.Object]*TOperand // locals bound by `v, ok := <constant table>[key]`
+	em      *Emitter
+	info    *types.Info
+	t       *Template
+	vars    map[types.Object]*tval
+	callV   map[*ast.CallExpr]*tval
+	callVN  map[*ast.CallExpr][]*tval // calls of inlined helpers with several results
+	frames  []*ast.CallExpr
+	callees []*ast.FuncDecl
+	binds   []map[types.Object]ast.Expr // parameter -> argument expr of inlined calls
+	caps    int
+	self    *types.Func
+	tables  map[types.Object]*TOperand // locals bound by `v, ok := <constant table>[key]`
 }
 
 func (em *Emitter) interpret(kind string, path Path, self *types.Func) *Template {
@@ -444,6 +446,25 @@ func (it *tinterp) subst(e ast.Expr) ast.Expr {
 		}
 	}
 	return e
+}
+
+// deepSubst: e with the parameters of the inlined helpers replaced by the caller's
+// expressions, also inside e.
+func (it *tinterp) deepSubst(e ast.Expr) ast.Expr {
+	e = it.subst(e)
+	if len(it.binds) == 0 {
+		return e
+	}
+	all := map[types.Object]ast.Expr{}
+	for _, m := range it.binds {
+		for k, v := range m {
+			all[k] = v
+		}
+	}
+	if len(all) == 0 {
+		return e
+	}
+	return SubstCopy(it.info, e, all)
 }
 
 func (it *tinterp) value(e ast.Expr) *tval {
@@ -503,7 +524,7 @@ func (it *tinterp) run(atoms []Atom, loopSlot string) {
 				for _, f := range a.Callee.Type.Params.List {
 					for _, nm := range f.Names {
 						if i < len(a.Call.Args) {
-							m[info.Defs[nm]] = it.subst(a.Call.Args[i])
+							m[info.Defs[nm]] = it.deepSubst(a.Call.Args[i])
 						}
 						i++
 					}
@@ -511,10 +532,12 @@ func (it *tinterp) run(atoms []Atom, loopSlot string) {
 			}
 			it.binds = append(it.binds, m)
 			it.frames = append(it.frames, a.Call)
+			it.callees = append(it.callees, a.Callee)
 		case "leave":
 			if len(it.frames) > 0 {
 				it.frames = it.frames[:len(it.frames)-1]
 				it.binds = it.binds[:len(it.binds)-1]
+				it.callees = it.callees[:len(it.callees)-1]
 			}
 		case "enterlit", "leavelit":
 			// the literal's body is interpreted in place
@@ -525,6 +548,25 @@ func (it *tinterp) run(atoms []Atom, loopSlot string) {
 					if v := it.value(rs.Results[0]); v != nil {
 						it.callV[it.frames[len(it.frames)-1]] = v
 					}
+				}
+				// several results (`return i, size, cond, end`), or a bare return of named ones
+				var many []*tval
+				if len(rs.Results) > 1 {
+					for _, e := range rs.Results {
+						many = append(many, it.value(e))
+					}
+				} else if cd := it.callees[len(it.callees)-1]; len(rs.Results) == 0 && cd != nil && cd.Type.Results != nil {
+					for _, f := range cd.Type.Results.List {
+						for _, nm := range f.Names {
+							many = append(many, it.vars[info.Defs[nm]])
+						}
+					}
+				}
+				if len(many) > 1 {
+					if it.callVN == nil {
+						it.callVN = map[*ast.CallExpr][]*tval{}
+					}
+					it.callVN[it.frames[len(it.frames)-1]] = many
 				}
 			}
 		case "cond":
@@ -574,7 +616,9 @@ func (it *tinterp) run(atoms []Atom, loopSlot string) {
 				o := TOperand{Kind: "const"}
 				if len(call.Args) == 1 {
 					// the constant may have been given a name first (`call := Call{…}`)
-					arg := it.subst(it.em.Defs.Resolve(it.subst(call.Args[0])))
+					// … and is read in the scheme method's terms when built inside a helper
+					// (`Call{Name: name, Size: len(arguments)}` with the helper's parameters)
+					arg := it.deepSubst(it.subst(it.em.Defs.Resolve(it.subst(call.Args[0]))))
 					o.ConstExpr = arg
 					if tv, ok := info.Types[arg]; ok {
 						o.ConstType = tv.Type
@@ -652,6 +696,22 @@ func (it *tinterp) run(atoms []Atom, loopSlot string) {
 								it.tables = map[types.Object]*TOperand{}
 							}
 							it.tables[it.objOf(id)] = &TOperand{Kind: "rawtable", Table: tb, TableOn: ix.Index}
+						}
+					}
+				}
+			}
+			if len(as.Lhs) > 1 && len(as.Rhs) == 1 {
+				// i, size, cond, end := c.emitLoopHead()
+				if c, ok := Unparen(as.Rhs[0]).(*ast.CallExpr); ok {
+					if many := it.callVN[c]; len(many) == len(as.Lhs) {
+						for i, l := range as.Lhs {
+							if id, ok := l.(*ast.Ident); ok && id.Name != "_" {
+								if many[i] != nil {
+									it.vars[it.objOf(id)] = many[i]
+								} else {
+									delete(it.vars, it.objOf(id))
+								}
+							}
 						}
 					}
 				}
